@@ -123,6 +123,34 @@ def mutate(rng, b, other):
     return bytes(b)
 
 
+def worst_huff_stream(nblocks, trunc, ones=True):
+    """baseline grayscale stream whose AC table gives the symbol run 0 / size 15 the 16-bit code 0xFFFE and whose
+    coefficients all have 15 value bits: 31 bits per coefficient, nearly every byte 0xFF and therefore stuffed - the
+    most input bytes one block can consume.  Cut after `trunc` bytes of entropy-coded data, no EOI."""
+    def seg(m, payload):
+        return bytes([0xFF, m]) + (len(payload) + 2).to_bytes(2, "big") + payload
+    out = b"\xff\xd8" + seg(0xDB, bytes([0]) + bytes([1] * 64))
+    out += seg(0xC0, bytes([8]) + (8).to_bytes(2, "big") + (8 * nblocks).to_bytes(2, "big") + bytes([1, 1, 0x11, 0]))
+    out += seg(0xC4, bytes([0x00]) + bytes([1] + [0] * 15) + bytes([0]))
+    acvals = [0x00, 0x01, 0x11, 0x21, 0x31, 0x41, 0x51, 0x61, 0x71, 0x81, 0x91, 0xA1, 0xB1, 0xC1, 0xD1, 0x0F]
+    out += seg(0xC4, bytes([0x10]) + bytes([1] * 16) + bytes(acvals))
+    out += seg(0xDA, bytes([1, 1, 0x00, 0, 63, 0]))
+    bits = []
+    for _ in range(nblocks):
+        bits.append("0")                                   # DC difference 0
+        for _k in range(63):
+            bits.append("1111111111111110")                # symbol 0x0F
+            bits.append("1" * 15 if ones else "100000000000000")
+    s = "".join(bits)
+    s += "1" * (-len(s) % 8)
+    data = bytearray()
+    for i in range(0, len(s), 8):
+        b = int(s[i:i + 8], 2)
+        data.append(b)
+        if b == 0xFF: data.append(0)
+    return out + bytes(data[:trunc])
+
+
 def stage2(ops, model_lines, res_by_v):
     base, fails = _C03.stage2(ops, model_lines, res_by_v)
     vs = list(res_by_v.keys())
@@ -141,6 +169,12 @@ def stage2(ops, model_lines, res_by_v):
             m = s if r == 0 else mutate(rng, s, other)
             if rng.random() < .25 and r: m = mutate(rng, m, other)
             out.append("dfz %d %d %s" % (rng.choice([0, 0, 1, 2, 3, 3, 3, 4]), rng.randrange(1 << 30), m.hex() if m else "-"))
+    # blocks that consume the most input bytes a block can, with the data ending inside them: the decoder's choice between its
+    # checked and unchecked (fast) paths must leave no read beyond the end of the input
+    for nb in (1, 2, 3):
+        for trunc in list(range(120, 1100, 37)) + [255, 256, 257, 511, 512, 513]:
+            for ones in (True, False):
+                out.append("dfz %d %d %s" % (rng.choice([0, 3, 4]), rng.randrange(1 << 30), worst_huff_stream(nb, trunc, ones).hex()))
     return out, fails
 
 
